@@ -35,7 +35,7 @@ def _cfg(tier):
     return Cfg(nvars=(1, 3), pool=(2, 5), dom=(1, 3), max_product=27, profile="falsy", max_depth=2,
                allow_empty_cond=False, select="any", desc=("entity", "set_of"), value_terms_in_select=True,
                force_relate=False, noise=False, dom_kinds=("list",), use_k=False,
-               exclude_leaves=frozenset({"substr", "starts", "tval"}),
+               exclude_leaves=frozenset({"substr", "starts", "tval"}), kw_vars=(1, 4),
                allow_nested_not="not_under_not" not in open_features())
 
 
@@ -111,6 +111,9 @@ def twin(case):
         r["d"] = {k: phi(v) for k, v in r["d"].items()}
     t["ents"].append({"cls": "Ent", "k": 99, "a": 99, "b": 99, "s": "#sentinel", "tags": [99], "o": 99, "ref": n,
                       "kids": [n], "d": {"p": 99, "q": 99}})
+    for vd in t["vars"]:
+        if vd.get("kw"):
+            vd["kw"] = [[f, enc(phi(dec(c)))] for f, c in vd["kw"]]
     if t.get("cond") is not None:
         t["cond"] = _phi_cond(t["cond"])
     t["sel"] = [_phi_term(x) for x in t["sel"]]
